@@ -81,6 +81,13 @@ def build(case):
         s.init, _ = gen.onehot_init(rng, lead, K, N)
     elif init.startswith('blur'):
         s.init, _ = gen.onehot_init(rng, lead, K, N, blur=float(init.split(':')[1]))
+    elif init.startswith('planted'):
+        # informed start: the planted labels of the data, blurred - EM converges within a few iterations from here, which is
+        # where stopping rules and other shortcuts near convergence act
+        b = float(init.split(':')[1])
+        lab = np.asarray(s.data['lab'])
+        onehot = (lab[..., None, :] == np.arange(K)[:, None]).astype(float)
+        s.init = (1 - b) * onehot + b * gen.dirichlet_init(rng, lead, K, N, alpha=1.0)
     elif init.startswith('singleton'):
         # singleton leading axes, to be broadcast by the library
         s.init = gen.dirichlet_init(rng, (1,) * len(lead), K, N, alpha=1.0)
